@@ -115,6 +115,9 @@ func modelEffects(full string) []string {
 	if pureModels[full] {
 		return []string{}
 	}
+	if full == "(*os.File).Seek" {
+		return []string{"G_filepos"}
+	}
 	return nil
 }
 
@@ -125,7 +128,7 @@ var pureModels = map[string]bool{
 	"(time.Time).Add": true, "(time.Time).Sub": true, "bytes.Equal": true, "fmt.Errorf": true, "errors.New": true,
 	"fmt.Sprintf": true, "time.Now": true, "time.Since": true, "strings.Join": true, "strings.Split": true, "strings.SplitN": true,
 	"(*github.com/bluenviron/mediacommon/v2/pkg/formats/fmp4/seekablebuffer.Buffer).Bytes": true, "(*bytes.Buffer).Bytes": true,
-	"(time.Duration).Milliseconds": true, "errors.Is": true, "os.Create": true, "os.Open": true, "bufio.NewWriter": true, "bytes.NewReader": true, "io.NewOffsetWriter": true, "io.NopCloser": true, "(time.Time).Format": true, "time.Parse": true,
+	"(time.Duration).Milliseconds": true, "errors.Is": true, "os.Create": true, "os.Open": true, "bufio.NewWriter": true, "bytes.NewReader": true, "io.NewOffsetWriter": true, "io.NopCloser": true, "io.NewSectionReader": true, "(time.Time).Format": true, "time.Parse": true,
 }
 
 func (vc *VC) errIface(st *State, hint string) string {
@@ -153,6 +156,12 @@ func (vc *VC) modelCall(fr *Frame, st *State, callee *ssa.Function, args []strin
 		vc.svDeclare("G_held", "(Array Int Int)")
 		h := vc.get(st, "G_held")
 		vc.lockObl(fr, st, "lock", "lock is held at Unlock", fmt.Sprintf("(= (select %s %s) 1)", h, args[0]), pos)
+		// atomicity of the caller's critical section: a lock that was already held when this function
+		// was entered is not released by it (other threads would observe an intermediate state)
+		if vc.entry != nil {
+			vc.lockObl(fr, st, "lock-atomic", "the lock released here was not held at entry: the caller's critical section is not split",
+				fmt.Sprintf("(= (select %s %s) 0)", vc.get(vc.entry, "G_held"), args[0]), pos)
+		}
 		vc.set(st, "G_held", fmt.Sprintf("(store %s %s 0)", h, args[0]))
 		vc.svDeclare("G_nheld", "Int")
 		vc.set(st, "G_nheld", fmt.Sprintf("(- %s 1)", vc.get(st, "G_nheld")))
@@ -176,6 +185,10 @@ func (vc *VC) modelCall(fr *Frame, st *State, callee *ssa.Function, args []strin
 		vc.svDeclare("G_held", "(Array Int Int)")
 		h := vc.get(st, "G_held")
 		vc.lockObl(fr, st, "lock", "the condition variable's lock is held at Wait", fmt.Sprintf("(= (select %s (cond_lock %s)) 1)", h, args[0]), pos)
+		if vc.entry != nil {
+			vc.lockObl(fr, st, "lock-atomic", "the lock released by Wait was not held at entry: the caller's critical section is not split",
+				fmt.Sprintf("(= (select %s (cond_lock %s)) 0)", vc.get(vc.entry, "G_held"), args[0]), pos)
+		}
 		vc.condWait(fr, st, vc.eng.lockClassOf(argVal(argVals, 0)), pos)
 		return nil, true
 	case "(*sync.Cond).Broadcast", "(*sync.Cond).Signal":
@@ -315,6 +328,24 @@ func (vc *VC) modelCall(fr *Frame, st *State, callee *ssa.Function, args []strin
 		vc.fact(st.pc, fmt.Sprintf("(and (>= %s 0) (< %s %s) (=> (= (if_type %s) 0) (> %s 0)))", f, f, vc.allocBound(st), e, f))
 		vc.assume("T3 os.Create/os.Open return a non-nil file when the error is nil")
 		return []string{f, e}, true
+	case "(*os.File).Seek":
+		// ghost read/write position of the file object (whence 0 = io.SeekStart)
+		vc.svDeclare("G_filepos", "(Array Int Int)")
+		n := vc.fresh("Int", "seekpos")
+		e := vc.fresh("Iface", "seekerr")
+		vc.typeFacts(st, e, callee.Signature.Results().At(1).Type())
+		np := vc.fresh("Int", "filepos")
+		vc.fact(st.pc, fmt.Sprintf("(=> (and (= (if_type %s) 0) (= %s 0)) (and (= %s %s) (= %s %s)))", e, args[2], np, args[1], n, args[1]))
+		vc.set(st, "G_filepos", fmt.Sprintf("(store %s %s %s)", vc.get(st, "G_filepos"), args[0], np))
+		vc.assume("T3 os.File.Seek(off, io.SeekStart) positions the file at off when it succeeds")
+		return []string{n, e}, true
+	case "io.NewSectionReader":
+		vc.declareOnceRaw("sr_off", "(declare-fun sr_off (Int) Int)")
+		vc.declareOnceRaw("sr_len", "(declare-fun sr_len (Int) Int)")
+		r := vc.alloc(st, "sectionreader")
+		vc.fact(st.pc, fmt.Sprintf("(and (= (sr_off %s) %s) (= (sr_len %s) %s))", r, args[1], r, args[2]))
+		vc.assume("T3 io.NewSectionReader(r, off, n) reads the n bytes of r that start at off")
+		return []string{r}, true
 	case "bufio.NewWriter", "bytes.NewReader", "io.NewOffsetWriter", "io.NopCloser":
 		vc.assume("T3 " + full + " returns a non-nil value")
 		if full == "io.NopCloser" {
